@@ -1114,7 +1114,7 @@ func (in *interp) typeAssert(x *ssa.TypeAssert, v Value) Value {
 			}
 			return s
 		}
-		if iv.T != nil && (iv.T.isCtor() || iv.T == nil) || iv.T == nil {
+		if iv.T == nil || iv.T.isCtor() {
 			if x.CommaOk {
 				return Tuple{StrV(""), BoolV(false)}
 			}
